@@ -30,6 +30,14 @@ CLAIMED = {
    "Type-directed program generation against an independent reference interpreter: 100 000 (quick) / 3 000 000 (thorough) generated expressions (25% ill-typed by construction, incl. type errors hidden behind the empty array's element type) plus a bounded-exhaustive layer (every binary operator x 18 x 18 leaves of all types, unary, index, tuple access, calls, ?:/if; depth 2 over 7 leaves) are parsed, type-checked exactly as the filter / hashBy / log-format loaders do, and - if accepted - evaluated in the real rule environment (create_context over generated request attributes). Accepted => no panic, result of the accepted type, equal to the reference value where the documentation defines one, or a dynamic error (division by zero, overflow, index, regex, non-numeric) that some evaluated sub-term can produce; && / || / if / ?: must not evaluate the operand they skip.",
    "Trusted: the reference semantics of DESIGN.md Appendix A (deliberately agnostic where the documentation is silent: overflow may wrap or error, negative indexes may count from the end, to_string of a string is judged for type only); error classes are recognised by message text; the parser's documented nesting limit (16) is tolerated.",
    "proptest type-directed generation + bounded-exhaustive enumeration vs reference interpreter (differential)", "§3 C08, Appendix A"),
+ "C02": ("vp-inproc", "exploration",
+   "Model check of the real process_request over generated rule lists x requests x connector feature sets (20 000 quick / 400 000 thorough): each filter has an independent reference evaluation (error => no match); exactly the predicted connector's connect() must run once and be recorded, or none at all with on_error only (deny / no rule / feature missing). cidr_match is compared with own mask arithmetic for all prefix lengths at the network boundaries (30 000 / 1 000 000). The end-to-end part (no origin receives a byte on deny; attributes equal the real socket values) is added with the e2e engine.",
+   "Trusted: the reference interpreter shared with C08 (restricted here to atoms inside its defined fragment), harness connectors that record calls.",
+   "proptest model-based: reference decision procedure vs real process_request; boundary-value cidr law", "§3 C02"),
+ "C17": ("vp-inproc", "exploration",
+   "The real LoadBalanceConnector is built from generated YAML and driven through the real process_request: round robin sequentially (every window of n selections covers every member) and concurrently from 2-8 tasks on a 4-thread runtime (exact counts), hash-by stickiness against reference key evaluation over 10 key expressions, random coverage (400*n draws), non-member decoy never used, recorded connector == member that ran. 1 500 / 40 000 configurations. Concurrent round robin is stress on a real multi-thread runtime, not schedule enumeration.",
+   "Trusted: reference key evaluation (C08 interpreter); recording members. The random law has a false-alarm probability below 1e-20 per case.",
+   "proptest stateful sequences + multi-thread stress, oracle = counting / grouping invariants", "§3 C17"),
 }
 
 NOT_YET = "check not built yet in this session (see DESIGN.md §6 build order); will be claimed once its generator and oracle exist"
